@@ -12,6 +12,7 @@ from torch import Tensor, nn
 from torchtree.core.abstractparameter import AbstractParameter
 from torchtree.core.container import Container
 from torchtree.core.identifiable import Identifiable
+from torchtree.core.model import Model
 from torchtree.core.parametric import ParameterListener, Parametric
 from torchtree.core.utils import (
     JSONParseError,
@@ -380,6 +381,13 @@ class TransformedParameter(AbstractParameter, Parametric, collections.abc.Callab
             self.x = x
         self._tensor = self.transform(self.x.tensor)
         self.listeners = []
+        # the transform itself can depend on parameters and models
+        # (e.g. RescaledRateTransform(rate, tree_model)): listen to them too
+        for value in vars(self.transform).values():
+            if isinstance(value, AbstractParameter):
+                value.add_parameter_listener(self)
+            elif isinstance(value, Model):
+                value.add_model_listener(self)
 
     def parameters(self) -> list[AbstractParameter]:
         return self.x.parameters()
@@ -428,7 +436,8 @@ class TransformedParameter(AbstractParameter, Parametric, collections.abc.Callab
         self.fire_parameter_changed()
 
     def handle_model_changed(self, model, obj, index) -> None:
-        pass
+        self.need_update = True
+        self.fire_parameter_changed()
 
     def add_parameter_listener(self, listener) -> None:
         self.listeners.append(listener)
